@@ -115,11 +115,41 @@ def validKs (c : Cfg) (ws : List String) : Option (List Nat) :=
     | some k, some l => if k < c.n then some (k :: l) else none
     | _, _ => none) (some [])
 
+/-- `batch s:a …`: one consumer coroutine makes the accesses in a row.  The model runs every (re)charged source
+synchronously inside the charging step (`charge`), which is what the code does whether or not the consumer itself
+is a coroutine (`next_awt::subscribe` resumes the source handle directly), so a batch is just the sequence of accesses. -/
+def parseAcc (w : String) : Option (Char × Nat) :=
+  match w.splitOn ":" with
+  | [st, a] => match st.toList, a.toNat? with
+      | [ch], some n => if "nicfw".toList.contains ch then some (ch, n) else none
+      | _, _ => none
+  | _ => none
+
+def doBatch (x : Ctx) (s : State) (accs : List (Char × Nat)) : State × String :=
+  let c := x.cfg
+  let (s', rs) := accs.foldl (fun (acc : State × List String) (ca : Char × Nat) =>
+    let (st, rs) := acc
+    if waiting st then (st, rs) else
+    let blocking := ca.1 == 'n' || ca.1 == 'i' || ca.1 == 'w'
+    match st.ag with
+    | Ag.done => (st, rs ++ [if ca.1 == 'f' || ca.1 == 'w' then "nomore" else "end"])
+    | Ag.failed _ => (st, rs ++ ["nomore"])
+    | _ =>
+      let s1 := settleAll c (step c st (Op.next ca.2))
+      let r := resultStr st s1
+      (s1, rs ++ [if blocking && r == "pending" then "hang" else r])) (s, [])
+  (s', line x (" ".intercalate ("batch" :: rs)) s s' [])
+
 /-- one op line: returns new state and the output line -/
 def doOp (x : Ctx) (s : State) (ws : List String) : State × String :=
   let c := x.cfg
   if !x.ok || isDestroyed s then (s, "bad-op") else
   match ws with
+  | "batch" :: acc1 :: accs =>
+    let parsed := (acc1 :: accs).map parseAcc
+    if waiting s || !parsed.all Option.isSome || (x.argMode && parsed.any (fun p => (p.map (·.1)) == some 'i'))
+    then (s, "bad-op")
+    else doBatch x s (parsed.filterMap id)
   | [op, a] =>
     match a.toNat? with
     | none => (s, "bad-op")
